@@ -5,22 +5,23 @@ open Conv
 let zi = z_of_int
 let iz = int_of_z
 
-let parse_events (s : string) : ev list * string list =
-  (* returns events and upstream-side errors *)
+let parse_events (s : string) : ev list * (z * z) list * string list =
+  (* returns events, blocks returned upstream (address, size) and upstream-side errors *)
   let toks = Array.of_list (split_ws s) in
   let n = Array.length toks in
-  let evs = ref [] and errs = ref [] in
+  let evs = ref [] and errs = ref [] and downs = ref [] in
   let i = ref 0 in
   while !i < n do
     (match toks.(!i) with
      | "U+" ->
        if !i + 3 < n + 0 && toks.(!i + 3) = "fail" then (evs := EUpFail :: !evs; i := !i + 4)
        else (evs := EUp (zi (int_of_string toks.(!i + 3)), zi (int_of_string toks.(!i + 1))) :: !evs; i := !i + 4)
-     | "U-" -> evs := EDown (zi (int_of_string toks.(!i + 3)), zi (int_of_string toks.(!i + 1))) :: !evs; i := !i + 4
+     | "U-" -> downs := (zi (int_of_string toks.(!i + 3)), zi (int_of_string toks.(!i + 1))) :: !downs; i := !i + 4
+     | "R" -> evs := EResv (zi (int_of_string toks.(!i + 1)), zi (int_of_string toks.(!i + 2))) :: !evs; i := !i + 3
      | "I" -> evs := EIns (zi (int_of_string toks.(!i + 1)), zi (int_of_string toks.(!i + 2)), zi (int_of_string toks.(!i + 3))) :: !evs; i := !i + 4
      | t -> errs := t :: !errs; incr i)
   done;
-  (List.rev !evs, List.rev !errs)
+  (List.rev !evs, List.rev !downs, List.rev !errs)
 
 let kv (s : string) : (string * int) list =
   List.filter_map (fun t -> match String.split_on_char '=' t with
@@ -48,7 +49,14 @@ let run () =
          let (lhs, rhs) = match String.index_opt head '=' with
            | Some i -> (split_ws (String.sub head 0 i), split_ws (String.sub head (i + 1) (String.length head - i - 1)))
            | None -> (split_ws head, []) in
-         let (events, uerrs) = parse_events evs in
+         let (events, downs, uerrs) = parse_events evs in
+         (match lhs, rhs with
+          | "destroy" :: _, _ -> ()
+          | ("pool" | "coll") :: _, "throw" :: _ ->
+            (* a constructor that throws must give back what it took *)
+            let ups = List.filter_map (function EUp (a, s) -> Some (a, s) | _ -> None) events in
+            if List.rev ups <> downs then diverge "constructor threw without returning its blocks" line
+          | _ -> if downs <> [] then diverge "block returned upstream before destruction" line);
          if uerrs <> [] then diverge ("upstream-side error " ^ String.concat " " uerrs) line;
          let caps = kv caps in
          (match lhs with
@@ -59,7 +67,7 @@ let run () =
             is_coll := false;
             (match rhs with
              | "ok" :: _ ->
-               let s0 = mk_ast [mk_list (if !small then LSmall else LIntrusive) (zi !pool_ns)] [] in
+               let s0 = mk_ast [mk_list (if !small then LSmall else LIntrusive) (zi !pool_ns)] in
                (match acc_evs s0 events with
                 | Some s -> st := Some s; track_blocks events
                 | None -> diverge "constructor events rejected" line)
@@ -75,7 +83,7 @@ let run () =
                    let rec go p acc = if p > 2 * !max_node then acc else go (2 * p) (p :: acc) in
                    List.rev (go (min_elem ()) [])
                  else List.init (!max_node - min_elem () + 1) (fun i -> i + min_elem ()) in
-               let s0 = mk_ast (List.map (fun n -> mk_list kind (zi n)) sizes) [] in
+               let s0 = mk_ast (List.map (fun n -> mk_list kind (zi n)) sizes) in
                (match acc_evs s0 events with
                 | Some s -> st := Some s; track_blocks events
                 | None -> diverge "constructor events rejected" line)
@@ -167,9 +175,8 @@ let run () =
           | "destroy" :: _ ->
             (match !st with
              | Some s ->
-               (match acc_evs s events with
-                | Some s' -> if a_held s' <> [] then diverge "blocks still held after destruction" line; st := None
-                | None -> diverge "blocks not returned in reverse order of acquisition with the same address and size" line)
+               if not (destroy_ok s downs) then diverge "blocks not returned exactly once in reverse order of acquisition with the same address and size" line;
+               st := None
              | None -> ())
           | _ -> ());
          (* capacity figures after the operation *)
